@@ -11,6 +11,7 @@ import (
 	"fmt"
 	"io"
 	"runtime"
+	"sort"
 	"strings"
 	"testing"
 	"time"
@@ -81,6 +82,11 @@ type steps struct {
 	scramDone bool
 	// the peer's stream headers carry this to attribute ("" none)
 	headerTo string
+	// receiving side: the initiating peer's k-th stream header (1-based; 0 none)
+	// is replaced by a header that must be refused; the peer ignores whatever
+	// is answered and carries on with its moves
+	badHeaderAt int
+	badHeader   string
 }
 
 func withHeaderTo(tr transcript, to string) transcript {
@@ -470,12 +476,58 @@ func fullReceiver(ws bool, withVol bool, volFails bool) transcript {
 				moves = append(moves, `<vol xmlns="urn:verif:vol"/>`)
 			}
 			moves = append(moves, `<iq xmlns="jabber:client" type="set" id="b1"><bind xmlns="`+bindNS+`"><resource>balcony</resource></bind></iq>`)
+			if st.badHeaderAt > 0 {
+				k := 0
+				for i, m := range moves {
+					if m == h {
+						k++
+						if k == st.badHeaderAt {
+							moves[i] = st.badHeader
+						}
+					}
+				}
+			}
 			if st.n <= len(moves) {
 				return []byte(moves[st.n-1])
 			}
 			return nil
 		},
 	}
+}
+
+// withBadHeader: the initiating peer's k-th stream header is one that the
+// receiving side must refuse.
+func withBadHeader(tr transcript, k int, what, header string) transcript {
+	tr.name += fmt.Sprintf(" peer-header-%d=%s fails=true", k, what)
+	tr.prep = func(st *steps) { st.badHeaderAt, st.badHeader = k, header }
+	return tr
+}
+
+// badHeaders are stream headers of an initiating peer that a receiving c2s
+// session must refuse.
+func badHeaders(ws bool) map[string]string {
+	good := hdr(ws, stanza.NSClient, client.Bare().String(), server.String(), "")
+	out := map[string]string{
+		"version-0.9": replaceLast(good, ` version="1.0"`, ` version="0.9"`),
+		"version-2.0": replaceLast(good, ` version="1.0"`, ` version="2.0"`),
+		"no-version":  replaceLast(good, ` version="1.0"`, ``),
+		"bad-to":      strings.Replace(good, ` to="`+server.String()+`"`, ` to="@@"`, 1),
+		"bad-from":    strings.Replace(good, ` from="`+client.Bare().String()+`"`, ` from="a@@b"`, 1),
+	}
+	if !ws {
+		out["foreign-content-namespace"] = strings.Replace(good, `xmlns="`+stanza.NSClient+`"`, `xmlns="urn:verif:not-a-stream-namespace"`, 1)
+	}
+	return out
+}
+
+// replaceLast replaces the last occurrence of old (the XML declaration in
+// front of a TCP header also says version="1.0").
+func replaceLast(s, old, new string) string {
+	i := strings.LastIndex(s, old)
+	if i < 0 {
+		return s
+	}
+	return s[:i] + new + s[i+len(old):]
 }
 
 func plainInitiator(s2s bool) transcript {
@@ -1048,6 +1100,39 @@ func TestC04BadHeaderAddress(t *testing.T) {
 				r := runWith(tr, fault{kind: "none"}, plain)
 				if msg := judgeMust(r); msg != "" {
 					ev.Failf(t, "%s\nthe peer's stream header carries to=%q, which is not an address: reading the header fails\n%s", describe(tr, fault{kind: "none"}, plain, result{}, r), to, msg)
+				}
+			}
+		}
+	}
+}
+
+// TestC04BadHeaderReceived: on the receiving side the step that reads the
+// initiating peer's stream header refuses the header (unsupported or missing
+// version, foreign content namespace, addresses that are not addresses) - the
+// first header or the one after a restart - and the peer, ignoring whatever it
+// is told, carries on with the rest of an otherwise flawless handshake.
+func TestC04BadHeaderReceived(t *testing.T) {
+	ev.Begin(t)
+	for _, ws := range []bool{false, true} {
+		nh := 3
+		if ws {
+			nh = 2
+		}
+		hs := badHeaders(ws)
+		var names []string
+		for k := range hs {
+			names = append(names, k)
+		}
+		sort.Strings(names)
+		for _, what := range names {
+			for k := 1; k <= nh; k++ {
+				tr := withBadHeader(fullReceiver(ws, false, false), k, what, hs[what])
+				for _, plain := range []bool{false, true} {
+					ev.Case(true, fmt.Sprintf("%s plain=%v", tr.name, plain), "header-step-fails", "received-header-refused", "received-header-refused-"+what, fmt.Sprintf("received-header-refused-at-%d", k))
+					r := runWith(tr, fault{kind: "none"}, plain)
+					if msg := judgeMust(r); msg != "" {
+						ev.Failf(t, "%s\nthe initiating peer's stream header number %d is %s: reading it fails; the peer carries on regardless\n%s", describe(tr, fault{kind: "none"}, plain, result{}, r), k, hs[what], msg)
+					}
 				}
 			}
 		}
